@@ -54,9 +54,12 @@ class Word(Box):
         super().__init__(name, dom, cod, data=data, _dagger=_dagger)
 
     def __repr__(self):
-        return "Word({}, {}{})".format(
+        if self.is_dagger:
+            return repr(self.dagger()) + ".dagger()"
+        return "Word({}, {}{}{})".format(
             repr(self.name), repr(self.cod),
-            ", dom={}".format(repr(self.dom)) if self.dom else "")
+            ", dom={}".format(repr(self.dom)) if self.dom else "",
+            "" if self.data is None else ", data={}".format(repr(self.data)))
 
 
 class CFG:
